@@ -48,7 +48,8 @@ PanChoices(s) ==
     {p \in SUBSET {x \in Names : Trans(snap[x], s[x]) \notin {"absent", "unchanged"}} :
         Cardinality(p) + Marks(hist) <= MaxPanics}
 
-GInit == CInit /\ hist = <<>> /\ out = "[]"
+(* lock-step replays start from a system that is up (start-up histories are judged by trace validation) *)
+GInit == CInitUp /\ hist = <<>> /\ out = "[]"
 
 (* one snapshot, reconciled completely before the next one (lock-step) *)
 GStep(s, pan) ==
@@ -63,7 +64,8 @@ GStep(s, pan) ==
     /\ Canonical => Canon(hist')
     /\ snap' = s /\ step' = n
     /\ clive' = rec.live
-    /\ UNCHANGED <<pend, done>>
+    /\ since' = [x \in Names |-> IF s[x] # snap[x] THEN n ELSE since[x]]
+    /\ UNCHANGED <<pend, done, begun>>
     /\ out' = ToJson(hist')
 
 GNext == step < MaxSnaps /\ \E s \in Snapshots : \E pan \in PanChoices(s) : GStep(s, pan)
